@@ -1,9 +1,21 @@
-HOOK_COMMITS = ["e8d87c5", "afbd338"]
+HOOK_COMMITS = ["e8d87c5", "afbd338", "0cc5209", "6c680dd"]
 NOTES = ("Every check re-checks the Coq theorems of coq/Props/<id>.v (full .vo build of their dependencies), rebuilds the "
          "harness from /repo's working tree with -tags verif, and runs the correspondence families of that property. "
          "See DESIGN.md for the trusted base and known_findings.json for recorded defects.")
 NOT_APPLICABLE = {}
 CLAIMED = {
+ "C16": {
+  "text": "Theorems over a universe of Go types described by what reflect reports (kind, named, implements error, channel "
+          "direction/element): for every signature and argument list, the arguments the input converter produces satisfy "
+          "reflect.Value.Call's precondition (count and exact parameter types, named types and variadic tails included), "
+          "so an accepted function or command never panics in the bridge; nil, non-functions and nil function values are "
+          "refused; registration succeeds exactly for the bridgeable signatures; booleans/strings pass unchanged and "
+          "numbers are converted to the declared kind. Correspondence: generated signatures x argument lists.",
+  "design_ref": "DESIGN.md section 5, C16",
+  "note": "reflect (Kind, ConvertibleTo, Convert, Call's panic conditions), goroutines and channels are modelled, not "
+          "verified. Out-of-range float->int conversions follow amd64.",
+  "technique": "Coq proof by induction over parameter lists + differential correspondence check with reflect-built probes",
+ },
  "C19": {
   "text": "Partial. Proved through Flocq's real-number semantics, for EVERY double: floor(x) <= x < floor(x)+1, "
           "ceil(x)-1 < x <= ceil(x), integer(x) truncates toward zero, round(x) is within 1/2 of x, all four are integers; "
